@@ -119,7 +119,7 @@ def tokText (v : Int) : String := "T" ++ showInt v
       7 `emit_l(k, l: List[i32]) -> List[i32]`
     and the registered host type `Tok`:
       8 `tok(k, v: i32) -> Tok`       9 `Tok.to_string(self) -> String`  ("T<v>"; also what `{e}` calls)
-     10 `Tok.peek(self, k) -> i32`   (11 is the type's equality, see `binopEv`) -/
+     10 `Tok.peek(self, k) -> i32`   (11 is the type's equality, see `hostEq`) -/
 def hostSem (f : Nat) (args : List Val) : Option Val :=
   match f, args with
   | 0, [.int _, .int v] => some (.int v)
@@ -149,6 +149,9 @@ inductive Expr
   | host (f : Nat) (args : Exprs)        -- host function / method (receiver = first argument)
   | call (f : Nat) (args : Exprs)        -- script function number `f`
   | bin (op : BinOp) (l r : Expr)
+  /-- `l == r` (`ne = false`) / `l != r` on two values of a registered host type: the compiler calls
+      the type's equality (an implicit host call) -/
+  | eqH (ne : Bool) (l r : Expr)
   | and (l r : Expr)
   | or (l r : Expr)
   | not (e : Expr)
@@ -361,16 +364,11 @@ def render : Val → Option (Trace × String)
   | .tok v => some ([⟨fnToString, [.tok v]⟩], tokText v)
   | v => (display v).map (fun s => ([], s))
 
-/-- A strict binary operator on evaluated operands, with the host calls it makes: `==` / `!=`
-    on two values of the registered host type call the type's equality (once; `!=` negates). -/
-def binopEv (op : BinOp) (a b : Val) : Option (Trace × Val) :=
-  match a, b with
-  | .tok x, .tok y =>
-    match op with
-    | .eq => some ([⟨fnEq, [.tok x, .tok y]⟩], .bool (decide (x = y)))
-    | .ne => some ([⟨fnEq, [.tok x, .tok y]⟩], .bool (decide (x ≠ y)))
-    | _ => none
-  | _, _ => (binop op a b).map (fun v => ([], v))
+/-- `==` (`ne = false`) / `!=` (`ne = true`) on two values of the registered host type: one call
+    of the type's equality (`!=` negates its answer). Defined for nothing else. -/
+def hostEq (ne : Bool) : Val → Val → Option (Trace × Val)
+  | .tok x, .tok y => some ([⟨fnEq, [.tok x, .tok y]⟩], .bool (if ne then decide (x ≠ y) else decide (x = y)))
+  | _, _ => none
 
 mutual
 /-- `evalExpr fns fuel env e`: the calls made, and the new environment with the
@@ -408,12 +406,18 @@ def evalExpr (fns : List FnDef) : Nat → Env → Expr → R (Env × Val)
     | .bin op l r => do
       let (env, a) ← evalExpr fns n env l
       let (env, b) ← evalExpr fns n env r
-      -- both operands first; then the operator (for a host type: its equality, a host call)
-      match binopEv op a b with
+      match binop op a b with
+      | some v => pure (env, v)
+      | none => .stuck "binary operator: operand types"
+    | .eqH ne l r => do
+      -- both operands first, left to right; then the type's equality, a host call
+      let (env, a) ← evalExpr fns n env l
+      let (env, b) ← evalExpr fns n env r
+      match hostEq ne a b with
       | some (tr, v) => do
         R.emits tr
         pure (env, v)
-      | none => .stuck "binary operator: operand types"
+      | none => .stuck "== on a host type: operand types"
     | .and l r => do
       let (env, a) ← evalExpr fns n env l
       match a with
